@@ -28,8 +28,8 @@ ASSUMPTIONS = [
     "for mixed-type sequences only the laws are checked, not a particular inferred dtype",
 ]
 BOUND = {
-    "quick": "sequences of length 0..3 over 30 scalars; explicit dtypes for homogeneous sequences; equal() relation over all pairs of vectors of length <= 2 built from 14 scalars",
-    "thorough": "sequences of length 0..4 over 30 scalars; equal() relation over all pairs of vectors of length <= 2 built from all 30 scalars (vectors reported equal must also hold == values position by position)",
+    "quick": "sequences of length 0..3 over 31 scalars; explicit dtypes for homogeneous sequences; equal() relation over all pairs of vectors of length <= 2 built from 14 scalars",
+    "thorough": "sequences of length 0..4 over 31 scalars; equal() relation over all pairs of vectors of length <= 2 built from all 31 scalars (vectors reported equal must also hold == values position by position)",
 }
 TIME_CAP = {"quick": 240, "thorough": 3000}
 
@@ -84,6 +84,7 @@ SCALARS = {
     "np.bool": np.bool_(True),
     "np.str": np.str_("a"),
     "np.dt64": np.datetime64("2020-02-29"),
+    "np.dt64M": np.datetime64("2020-02", "M"),   # a calendar unit (months are not a fixed number of microseconds)
     "np.NaT": np.datetime64("NaT"),
     "np.td64": np.timedelta64(1, "D"),
     "np.td64ns": np.timedelta64(86400 * 10 ** 9 + 5000, "ns"),   # nanosecond resolution, a whole number of microseconds
@@ -97,9 +98,9 @@ FAMILY = {
     "True": "bool", "1": "int", "big": "int", "i24": "int", "1.5": "float", "inf": "float", "complex": "complex", "a": "str", "empty": "str", "long1": "str", "long2": "str",
     "date": "date", "datetime": "datetime", "timedelta": "timedelta", "bytes": "bytes",
     "np.int64": "np.int", "np.float64": "np.float", "np.float32": "np.float32", "np.bool": "np.bool", "np.str": "np.str",
-    "np.dt64": "np.dt64", "np.NaT": "np.dt64", "np.td64": "np.td64", "np.td64ns": "np.td64", "dict": "object", "inst": "object", "aloof": "object",
+    "np.dt64": "np.dt64", "np.dt64M": "np.dt64", "np.NaT": "np.dt64", "np.td64": "np.td64", "np.td64ns": "np.td64", "dict": "object", "inst": "object", "aloof": "object",
 }
-DATEISH = {"date", "datetime", "np.dt64"}
+DATEISH = {"date", "datetime", "np.dt64"}   # (families; np.dt64M is of family np.dt64)
 EXPLICIT = {
     "int": [int, float, object, "int32"],
     "float": [float, object],
